@@ -126,6 +126,17 @@ pub fn child_finish(args: &Args, st: &Stats) -> i32 {
             eprintln!("cannot write shard stats: {e}");
             return 2;
         }
+    } else {
+        // run by hand (replay of one file in a single shard): say what happened
+        for v in &st.violations {
+            println!("shard violation {} : {}", v.signature, v.message);
+        }
+        for i in &st.inconclusive {
+            println!("shard inconclusive: {i}");
+        }
+        if !st.violations.is_empty() {
+            return 1;
+        }
     }
     0
 }
